@@ -16,7 +16,7 @@ from . import stepsim
 
 PROPERTY = "C03"
 TIERS = {
-    "quick": {"runs": 320, "budget_s": 110, "chunk": 4},
+    "quick": {"runs": 1200, "budget_s": 110, "chunk": 4},
     "thorough": {"runs": 12000, "budget_s": 900, "chunk": 8},
 }
 REQUIRED_PROBES = {
@@ -239,6 +239,8 @@ def check_step(world, rec, out, si, step, keyparts):
             b = rec.blocks[-1]
             ind = dict(rec.pre_indep)
             ind[var] = b.post_value
+            if not bridge.within_float32_exp_range(ind, world.pop_names + world.ind_names):
+                raise _OutOfRange()
             rt = bridge.ref_terms(world.cfg["kind"], world.variables, ind, world.pop_names, world.ind_names)
             a1, r1 = b.terms[2], b.terms[3]
             ra = rt["nll_attach_ind"] if rec.is_ind else rt["nll_attach"]
@@ -253,9 +255,15 @@ def check_step(world, rec, out, si, step, keyparts):
                 if not bridge.close64(r1, rr, rtol=2e-4, atol=1e-3):
                     violation(out, "target", f"regularity_not_documented_density:{'ind' if rec.is_ind else 'pop'}",
                               f"{where}: state {r1.reshape(-1)[:4].tolist()} vs closed form {np.asarray(rr).reshape(-1)[:4].tolist()}")
+        except _OutOfRange:
+            C["skip.float32_exp_range"] += 1
         except Exception as e:
             C["skip.refmath_error:" + type(e).__name__] += 1
     keyparts.append(f"{var}/{rec.kind}/{rec.t_inv}/{step.get('decision')}/{','.join(outcome)}")
+
+
+class _OutOfRange(Exception):
+    pass
 
 
 def _scale(b):
